@@ -238,11 +238,11 @@ Cascade(g, x, ts) ==
 (***************************************************************************)
 NoEnt == [id \in Ids |-> <<>>]
 \* aggregation record of one index
-AggNone == [present |-> FALSE, fresh |-> FALSE, cfg |-> Nil, prec |-> Nil, maint |-> Nil, al |-> Nil,
+AggNone == [present |-> FALSE, fresh |-> FALSE, cfg |-> Nil, prec |-> Nil, maint |-> Nil, maintSet |-> FALSE, al |-> Nil,
             ent |-> NoEnt, del |-> {}]
 AggSeed(ix) == IF ix.cfg = Nil THEN AggNone
                ELSE [present |-> TRUE, fresh |-> FALSE, cfg |-> ix.cfg, prec |-> ix.prec,
-                     maint |-> Nil, al |-> Nil, ent |-> NoEnt, del |-> {}]
+                     maint |-> Nil, maintSet |-> FALSE, al |-> Nil, ent |-> NoEnt, del |-> {}]
 
 RInit(loaded) == [kv |-> loaded.kv, base |-> loaded.ix,
                   agg |-> [n \in Names |-> AggSeed(loaded.ix[n])],
@@ -256,7 +256,7 @@ RStep(rs, c) ==
     [] c.c = "VCREATE" ->
          IF rs.agg[c.n].present THEN rs
          ELSE [rs EXCEPT !.agg[c.n] = [present |-> TRUE, fresh |-> TRUE, cfg |-> c.cfg, prec |-> CfgPrec[c.cfg],
-                                       maint |-> c.mc, al |-> c.al, ent |-> NoEnt, del |-> {}]]
+                                       maint |-> c.mc, maintSet |-> c.mc # Nil, al |-> c.al, ent |-> NoEnt, del |-> {}]]
     [] c.c = "VDROP" -> [rs EXCEPT !.agg[c.n] = AggNone, !.base[c.n] = NoIndex]
     [] c.c = "VADD" ->
          IF rs.agg[c.n].present
@@ -274,7 +274,7 @@ RStep(rs, c) ==
                     ELSE rs
          IN [rs1 EXCEPT !.g = Cascade(@, GId(c.n, c.id), c.ts)]
     [] c.c = "VCONFIG" ->
-         IF rs.agg[c.n].present THEN [rs EXCEPT !.agg[c.n].maint = c.mc] ELSE rs
+         IF rs.agg[c.n].present THEN [rs EXCEPT !.agg[c.n].maint = c.mc, !.agg[c.n].maintSet = TRUE] ELSE rs
     [] c.c = "VAUTOLINKS" ->
          IF rs.agg[c.n].present THEN [rs EXCEPT !.agg[c.n].al = c.al] ELSE rs
     [] c.c = "VCOMPRESS" ->
@@ -300,7 +300,7 @@ ApplyEntries(ix0, a) ==
 RApplyIndex(base, a) ==
   IF ~a.present THEN NoIndex
   ELSE LET ix0 == IF a.fresh THEN NewIndex(a.cfg, Nil, a.al) ELSE base
-           ix1 == [ix0 EXCEPT !.maint = IF a.maint # Nil THEN a.maint ELSE @,
+           ix1 == [ix0 EXCEPT !.maint = IF a.maintSet THEN a.maint ELSE @,
                               !.al    = IF a.al # Nil /\ ~a.fresh THEN a.al ELSE @]
            ix2 == ApplyEntries(ix1, a)
        IN IF a.prec # ix2.prec THEN IxRebuild(ix2, a.prec) ELSE ix2
@@ -319,7 +319,7 @@ EmitIndex(n, ix) ==
   IF ix.cfg = Nil THEN <<>>
   ELSE <<CCreate(n, ix.cfg, ix.al, Nil)>>
        \o (IF ix.prec # CfgPrec[ix.cfg] THEN <<CCompress(n, ix.prec)>> ELSE <<>>)
-       \o (IF ix.maint # Nil THEN <<CConfig(n, ix.maint)>> ELSE <<>>)
+       \o <<CConfig(n, ix.maint)>>      \* always emitted (the default config is not the zero value); Nil = defaults
        \o [j \in 1..Len(LiveSeq(ix)) |->
              LET nd == ix.nodes[LiveSeq(ix)[j]] IN CAdd(n, nd.ext, nd.vec, nd.meta)]
 
